@@ -111,12 +111,13 @@ def r5_zero_sum(pre: Snapshot, targets: Sequence[str]) -> bool:
     """amplitude-sum over the traced-out subsystems vanishes (vector-level blocks only)"""
     bidx = sorted({pre.where[t] for t in targets})
     blocks = [pre.blocks[i] for i in bidx]
-    if any(b.rep != "vector" for b in blocks):
+    if any(b.rep == "matrix" for b in blocks):
         return False
     members, dims = [], []
     psi = np.ones(1, complex)
     for b in blocks:
-        psi = np.kron(psi, np.asarray(b.array, complex).reshape(-1))
+        v = np.asarray(b.array, complex).reshape(-1) if b.rep == "vector" else np.linalg.eigh(b.rho())[1][:, -1]
+        psi = np.kron(psi, v)
         members += b.members
         dims += b.dims
     other = tuple(i for i, m in enumerate(members) if m not in targets)
@@ -160,6 +161,7 @@ class Machine:
         self.labels: List[str] = []
         self.nontrivial = False
         self.steps_done = 0
+        self.probe_remeasure = False
         self.skipped = 0
         self.sites: List[tuple] = []
 
@@ -252,6 +254,23 @@ class Machine:
             if r in post.where:
                 pass
 
+    def invariants_now(self, prop: str, site: dict):
+        """validity / bookkeeping predicate on the current graph (used after a foreign failure)"""
+        try:
+            post = self.snap()
+        except TooBig:
+            return
+        except Malformed as m:
+            raise Tagged(["C07", "C13"], "malformed", m.reason, dict(site, what=m.what))
+        if prop == "C07":
+            probs = validity_problems(self.w, post)
+            if probs:
+                raise Tagged(["C07"], "invalid-state", "; ".join(probs[:3]), dict(site, what=probs[0].split(":")[0]))
+        if prop == "C13":
+            bp = bookkeeping_problems(self.w, post)
+            if bp:
+                raise Tagged(["C13"], "bookkeeping", "; ".join(bp[:3]), dict(site, what=bp[0].split(":")[0]))
+
     # -- dispatch ------------------------------------------------------------------------
     def step(self, st: dict):
         k = st["k"]
@@ -326,7 +345,7 @@ class Machine:
         tol = TOL_TRUNC if name in ("Displace", "Squeeze") else (TOL_EXPM if name in ("BS",) else TOL_EXACT)
         if td > tol:
             trg = float(np.real(np.trace(got)))
-            what = "trace" if abs(trg - 1) > 1e-6 and ref.trace_distance(got / trg, want) <= tol else "state"
+            what = "trace" if abs(trg - 1) > 1e-6 and abs(trg) > 1e-9 and ref.trace_distance(got / trg, want) <= tol else "state"
             raise Tagged(props, "differs", f"{op['type']} via {entry} on {targets} (storage {site['storage']}/{site['rep']}): distance {td:.3e} "
                          f"from (OxI)rho(OxI)+ (trace of result {trg:.6f})", dict(site, what=what))
         if "C11" in props:
@@ -494,8 +513,8 @@ class Machine:
             fn = lambda: holder.trace_out(*objs)
         else:
             # CompositeEnvelope.trace_out answers for subsystems stored in its product spaces
-            if not all(isinstance(o.index, (tuple, list)) for o in objs):
-                raise Inapplicable("ce.trace_out needs members of product spaces")
+            if not any(isinstance(o.index, (tuple, list)) for o in objs):
+                raise Inapplicable("ce.trace_out needs a member of a product space")
             fn = lambda: holder.trace_out(*objs)
         pre = self.snap()
         site = site_of(w, pre, targets, "ce" if entry.startswith("ce") else entry, "trace_out",
@@ -503,7 +522,9 @@ class Machine:
         idx = [pre.names.index(t) for t in targets]
         want = ref.ptrace(pre.rho, pre.dims, idx)
         site["mixed_reduced"] = bool(ref.purity(want) < 1 - 1e-9)
-        site["r5_trigger"] = bool(site["rep"] == "vector" and (site["mixed_reduced"] or r5_zero_sum(pre, targets)))
+        involved = [pre.blocks[i] for i in {pre.where[t] for t in targets}]
+        merged_is_vector = all(b.rep != "matrix" for b in involved) and sum(len(b.members) for b in involved) > len(targets)
+        site["r5_trigger"] = bool(merged_is_vector and (site["mixed_reduced"] or r5_zero_sum(pre, targets)))
         ntraced = sum(len(pre.blocks[b].members) for b in {pre.where[t] for t in targets}) - len(targets)
         site["ntraced"] = min(ntraced, 3)
         try:
@@ -695,6 +716,10 @@ class Machine:
             raise Tagged(["C05", "C18"], "outcome-dict", f"measure via {entry} of {targets} (sep={sep}) reported {sorted(keys)}, specified to measure {sorted(mset)}",
                          dict(site, what="keys", missing=len(set(mset) - set(keys)), extra=len(set(keys) - set(mset))))
         outcomes = {name_of[id(kobj)]: int(v) for kobj, v in out.items()}
+        # ---- every draw of the call uses its own key (otherwise later draws copy earlier ones) ----
+        ks = [tuple(r["key"]) for r in log]
+        if len(set(ks)) != len(ks):
+            raise Tagged(["C04", "C14"], "key-reuse", f"measure via {entry} of {sorted(mset)}: {len(ks)} draws used only {len(set(ks))} distinct PRNG keys", dict(site, what="key"))
         # ---- Born rule along the path ----
         for rec in log:
             p = rec["p"]
@@ -762,6 +787,24 @@ class Machine:
             blk = post.block_of(m)
             if len(blk.members) != 1:
                 raise Tagged(["C05"], "not-alone", f"non-destructively measured {m} still sits in a product space", dict(site, what="alone"))
+            if w.obj[m].index is not None:
+                raise Tagged(["C05", "C13"], "stale-index", f"non-destructively measured {m} holds its own state but its index is {w.obj[m].index!r}", dict(site, what="index"))
+        if self.probe_remeasure:
+            # "re-measuring it returns the same value": ask every entry point that can address it
+            for m in kept:
+                o = w.obj[m]
+                calls = [("state", lambda o=o: o.measure(separate_measurement=True, destructive=False))]
+                for cname in w.ce_of_sub(m):
+                    calls.append((cname, lambda o=o, c=w.ces[cname]: c.measure(o, separate_measurement=True, destructive=False)))
+                for how, call in calls:
+                    SAMPLER.reset()
+                    try:
+                        again = libcall(call)
+                    except LibRaised as e:
+                        raise Tagged(["C05"], "remeasure", f"re-measuring non-destructively measured {m} via {how} raised {e}", dict(site, what="raised", sig=e.sig()))
+                    vals = [int(v) for k_, v in again.items() if k_ is o] if isinstance(again, dict) else []
+                    if vals != [outcomes[m]]:
+                        raise Tagged(["C05"], "remeasure", f"re-measuring {m} via {how} returned {again!r}, expected its outcome {outcomes[m]}", dict(site, what="value"))
         self.invariants(pre, post, mset, site, allow_merge=False, removed=mset)
         nz = [float(np.max(ref.diag_marginal(pre.rho, pre.dims, pre.names.index(m)))) for m in mset]
         if any(x < 1 - 1e-3 for x in nz):
@@ -1002,7 +1045,7 @@ def _do_resize(self, st):
         if n >= 1 and d1 != n:
             raise Tagged(["C10"], "dimension-not-set", f"resize({n}) returned True but the dimension is {d1}", dict(site, what="dims"))
         if beyond > 1e-9:
-            raise Tagged(["C10"], "population-lost", f"resize({n}) via {entry} on {t} (storage {site['storage']}/{site['rep']}) returned True although {beyond:.3e} of the population lies at or above level {n}", dict(site, what="lost"))
+            raise Tagged(["C10", "C17"], "population-lost", f"resize({n}) via {entry} on {t} (storage {site['storage']}/{site['rep']}) returned True although {beyond:.3e} of the population lies at or above level {n}", dict(site, what="lost"))
         if moved > 1e-9:
             raise Tagged(["C10"], "state-changed", f"successful resize({n}) moved the joint state by {moved:.3e}", dict(site, what="state"))
     elif ret is False:
